@@ -177,22 +177,43 @@ def handleScenario (j : Json) : Except String Json := do
                 fun y i => (y i).map fun r => Array.replicate r.size 0
               let fbs := shiftForced zeroLike shift ys
               seqs := seqs ++ [(List.zip xs fbs).map fun (x, f) => (x, some f)]
-        let (obs, σ') := runModel net order o seqs σ
-        let frozen := (Array.range N).map σ'
-        σ := ofArray R frozen
-        results := results.push (Json.mkObj [
-          ("steps", Json.arr (obs.map (fun sq => Json.arr (sq.map (statesJ R nodes)).toArray)).toArray),
-          ("store", storeJ R nodes σ)])
+        match fieldOpt opj "fail" with
+        | some fj => do
+            -- the (single) sequence raises at step k after the nodes `pre` were evaluated
+            let k ← natField fj "step"
+            let pre ← (← arr (← field fj "pre")).toList.mapM nat
+            match seqs with
+            | [sq] =>
+              let σ' := runSeqFail net order o sq k pre σ
+              let frozen := (Array.range N).map σ'
+              σ := ofArray R frozen
+              results := results.push (Json.mkObj [("failed", Json.bool true), ("store", storeJ R nodes σ)])
+            | _ => throw "Unsupported: failing run with several sequences"
+        | none => do
+            let (obs, σ') := runModel net order o seqs σ
+            let frozen := (Array.range N).map σ'
+            σ := ofArray R frozen
+            results := results.push (Json.mkObj [
+              ("steps", Json.arr (obs.map (fun sq => Json.arr (sq.map (statesJ R nodes)).toArray)).toArray),
+              ("store", storeJ R nodes σ)])
     | "call" => do
         let o ← parseOpts R opj
         let x ← parseIdMap (rowOf R) (← field opj "x")
         let forced ← match fieldOpt opj "forced" with
           | none => pure none
           | some fj => do pure (some (← parseIdMap (rowOf R) fj))
-        let (obs, σ') := callModel net order o x forced σ
-        let frozen := (Array.range N).map σ'
-        σ := ofArray R frozen
-        results := results.push (Json.mkObj [("steps", statesJ R nodes obs), ("store", storeJ R nodes σ)])
+        match fieldOpt opj "fail" with
+        | some fj => do
+            let pre ← (← arr (← field fj "pre")).toList.mapM nat
+            let σ' := callModelFail net order o x pre σ
+            let frozen := (Array.range N).map σ'
+            σ := ofArray R frozen
+            results := results.push (Json.mkObj [("failed", Json.bool true), ("store", storeJ R nodes σ)])
+        | none => do
+            let (obs, σ') := callModel net order o x forced σ
+            let frozen := (Array.range N).map σ'
+            σ := ofArray R frozen
+            results := results.push (Json.mkObj [("steps", statesJ R nodes obs), ("store", storeJ R nodes σ)])
     | "reset" => do
         let ts ← match fieldOpt opj "to_state" with
           | some v => parseIdMap (rowOf R) v
